@@ -15,14 +15,17 @@
  * sap_packet_get_payload takes pkt_size, so it is specified for EVERY packet (no validity
  * precondition); -DVF_SAP_PAYLOAD_VALIDATED selects the weaker "validated packet" contract.
  *
- * Span model.  The usual `VF_SAP_SPAN(pkt, pkt_size)` (an object of SYMBOLIC size) cannot be
+ * Span model.  The usual `__CPROVER_is_fresh(pkt, pkt_size)` (an object of SYMBOLIC size) cannot be
  * used for this header: CBMC 6.11 mis-lowers the read of a struct that consists of bit-fields only
  * (struct sap_hdr_flags_s, one byte) out of a byte array of non-constant size - the bit-fields come
  * out unrelated to the byte (measured: byte 0 == 0x10 gives v == 4, a == 0, c == 1; with a
  * constant-size object the same read is exact).  The packet is therefore modelled as the LAST
- * pkt_size bytes of an object of constant capacity VF_SAP_PKT_MAX (65535, the UDP maximum: a stated
- * input-length bound): VF_SAP_SPAN = readable and ending exactly at the end of its object, so one
+ * pkt_size bytes of an object of constant capacity VF_SAP_PKT_MAX: VF_SAP_SPAN = readable and
+ * ending exactly at the end of its object, so one
  * byte past the packet is still a failed dereference; pkt_size and all bytes stay symbolic.
+ * Cost grows with the capacity (1024: 3-30 s per job, 65535: does not finish), so the SAP jobs are
+ * route "bounded": capacity 1024 in the quick tier (RFC 2974 section 3 recommends packets below
+ * 1 kByte), 4096 in the thorough tier.  The largest header extent is 4 + 16 + 255 + 16 = 291 bytes.
  */
 #ifndef VF_CONTRACTS_SAP_H
 #define VF_CONTRACTS_SAP_H
@@ -31,7 +34,7 @@
 #include <sys/socket.h>
 
 #ifndef VF_SAP_PKT_MAX
-#define VF_SAP_PKT_MAX		((size_t)65535)
+#define VF_SAP_PKT_MAX		((size_t)1024)
 #endif
 #define VF_SAP_HDR_SIZE		((size_t)4)	/* sizeof(sap_hdr_t) */
 #define VF_SAP_MIN_PAYLOAD	((size_t)16)	/* SAP_MIN_PAYLOAD */
